@@ -8,7 +8,7 @@ ASSUMPTIONS = [
     'pandas: df.get(column) returns the column in row order (record stub); numpy reshape/transpose in C order (implemented with explicit index arithmetic for concrete shapes)',
     'shape classes: extract_data for N in {1,2,3} x M in {1,2,3} x T = 3; likelihood for N = 2, M = 2, T = 2, norm orders 1..3, parameter conditions with equal and with different key sets; all numbers symbolic. Larger N/M/T are not covered by a contract (bounded-in-shape); the native sweep of the thorough tier samples N <= 4, M <= 3',
     'history independence ("a function of theta alone") from: get_likelihood_function resets defaults then theta on every evaluation (proved with a recording stub of the likelihood object) and the likelihood applies each condition on top of the parameters in force at entry',
-    'the stochastic cost is covered for the prior/reset part only',
+    'the stochastic cost: StochasticTrajectoriesLikelihood.get_log_likelihood is proved against the same oracle with the SSA simulator summarised as stosim(initial state, parameters, grid, stream position) - N_simulations = 1, two trajectories with three time points each',
 ]
 TRUSTED = ['pandas record stub', 'numpy reshape/transpose model']
 EXPLANATION = ('extract_data: data[n,t,m] == frame_n[measurement_m][t] and the per-trajectory time axes, for every frame/measurement shape; '
